@@ -260,11 +260,14 @@ def replay(ctx, adapter_spec, behaviours, params=None, procs=None,
       for r in pool.imap_unordered(_replay_chunk, args):
         results.append(r)
   stats = dict(ok=0, diverted=0, mismatch=0)
+  ok_idx = []
   for r in results:
     if r[0] == "machinery":
       raise Machinery("adapter failure:\n" + r[1])
     for kind, bi, i, info in r[1]:
       stats[kind] += 1
+      if kind == "ok":
+        ok_idx.append(bi)
       beh = behs[bi]
       ctx.traces += 1
       ctx.case(fp([[s["a"], s.get("args")] for s in beh]),
@@ -275,6 +278,7 @@ def replay(ctx, adapter_spec, behaviours, params=None, procs=None,
                                      behaviour=beh, failing_step=i,
                                      observed=info["obs"],
                                      expected=info["exp"]))
+  replay.last_ok = sorted(ok_idx)       # indexes of behaviours replayed to the end (for negative controls)
   return stats
 
 
